@@ -21,7 +21,7 @@ def main(tier, replay=None):
     chk = vlib.Check(PID, tier, "model_checking")
     rng = chk.rng
     quick = tier == "quick"
-    harness, edges = setup(chk, tier, ["coop", "stop", "noclear", "nested", "tearonce"])
+    harness, edges = setup(chk, tier, ["coop", "stop", "noclear", "nested", "tearonce", "rootonce"])
     if replay:
         return runner.replay_file(chk, harness, replay, "HeapTrace", "HeapTrace_final.cfg", ())
     camp = runner.Campaign(chk, harness, "HeapTrace", "HeapTrace_final.cfg", per_process=True)
